@@ -10,6 +10,7 @@ Verdict strings: "ok" | "skip:<why>" | "fail:<key>:<detail>".
 -/
 import Pandora.Model.C06Phout
 import Pandora.Model.C06AggQueue
+import Pandora.Model.C06ErrJoin
 
 namespace Pandora.Spec.C06
 open Pandora.Model.Phout
@@ -84,6 +85,8 @@ structure QueueIn where
   g : Nat        -- reporter goroutines
   k : Nat        -- samples per reporter
   q : Nat        -- queue size
+  /-- (round 3) the sink's Close fails (after closing): the harness then prints Run's error as its members -/
+  closeErr : Bool := false
 
 def QueueIn.reports (i : QueueIn) : Nat := i.g * i.k
 
@@ -115,6 +118,15 @@ def dupCount (w : List (Nat × Nat)) : Nat :=
     | x :: rest, seen, n => if seen.contains x then go rest seen (n + 1) else go rest (x :: seen) n
   go w [] 0
 
+/-- the error Run must end with: nil / the drop count — and, when the sink's Close failed as well, both (encoder
+aggregators; phout does not look at the error of Close): the text of `Model.C06ErrJoin.finalErr` -/
+def expectedErr (kind : Pandora.Model.AggQueue.Kind) (closeErr : Bool) (dropped : Nat) : String :=
+  if closeErr then
+    Pandora.Model.C06ErrJoin.errText
+      (Pandora.Model.C06ErrJoin.finalErr Pandora.Model.C06ErrJoin.codeJoin Pandora.Model.C06ErrJoin.codeOrder
+        ⟨false, false, kind == .encoder, dropped⟩)
+  else if dropped == 0 then "nil" else s!"dropped:{dropped}"
+
 def judgeQueue (i : QueueIn) (o : QueueObs) : String :=
   if o.reports != i.reports then s!"fail:driver:harness made {o.reports} reports, input says {i.reports}"
   else if o.bad != 0 then s!"fail:malformed:{o.bad} lines do not decode"
@@ -123,7 +135,8 @@ def judgeQueue (i : QueueIn) (o : QueueObs) : String :=
   else if o.lines + o.dropped != o.reports then
     s!"fail:count:{o.lines} lines + {o.dropped} dropped != {o.reports} reports"
   else if i.kind == .phout && o.dropped != 0 then s!"fail:drop:phout dropped {o.dropped}"
-  else if o.err != (if o.dropped == 0 then "nil" else s!"dropped:{o.dropped}") then s!"fail:err:Run returned {o.err}"
+  else if o.err != expectedErr i.kind i.closeErr o.dropped then
+    s!"fail:err:Run returned {o.err}, {o.reports - o.lines} samples were dropped{if i.closeErr then " and the sink's Close failed" else ""}"
   else if !o.closed then "fail:close:sink not closed exactly once after the last write"
   else match o.w with
     | none => "ok"
@@ -171,7 +184,19 @@ nothing written after that) -/
 def judgeFailingSink (closed : Bool) : String :=
   if !closed then "fail:close:sink not closed exactly once after the last write (failing sink)" else "ok"
 
-/-- the real engine: `run` = what Engine.Run returned; judged at Run's return when nil, after Wait otherwise -/
+/-- (round 3) a known number of drops coinciding with a rejected final flush and/or a failing Close: the error Run
+ends with must carry exactly that number, the sink must be closed once; when nothing was rejected every accepted
+sample is a line -/
+def judgeCoincide (n q : Nat) (rejected : Bool) (errDropped lines : Nat) (closed : Bool) : String :=
+  let want := n - min n q
+  if errDropped != want then
+    s!"fail:count:{want} samples were dropped ({n} reports into a queue of {q}), the error Run ended with counts {errDropped}"
+  else if !closed then "fail:close:sink not closed exactly once after the last write (coinciding faults)"
+  else if !rejected && lines != min n q then s!"fail:count:{lines} lines + {want} dropped != {n} reports"
+  else "ok"
+
+/-- the real engine: `run` = what Engine.Run returned; judged at Run's return when nil, after Wait otherwise
+(`failed`: the pool whose gun was made to panic failed, the caller cancelled and waited) -/
 def judgeEngine (kind : Pandora.Model.AggQueue.Kind) (run : String) (aggret : Bool) (cancelled : Bool) (pools : Nat)
     (o : LateObs) : String :=
   if run == "other" then "fail:engine:Engine.Run returned an unexpected error"
@@ -222,16 +247,18 @@ structure ProcObs where
   timedOut : Bool       -- the process reported "timeout exceeded": it left through the interrupt timeout, without the final flush
   servedExit : Nat      -- requests the target had completely answered ≥ 500 ms before the process was gone
   since : Nat := 0      -- milliseconds between the signal and the moment the process was gone
+  /-- what stopped the run: "the signal", (round 3) "the failure of the other pool", "the end of the run" -/
+  what : String := "the signal"
 
 def judgeProc (o : ProcObs) : String :=
   if o.bad != 0 then s!"fail:malformed:{o.bad} lines of the result file do not decode"
   else if o.lines < o.servedBefore && o.timedOut && o.since < 2500 then
     -- the process says it gave up waiting for its tasks, long before the shortest interrupt timeout (3 s) can have
     -- elapsed, and answered requests are missing from the result: conclusive in one run
-    s!"fail:signal-loss:the process reported its interrupt timeout {o.since} ms after the signal (documented: 3 s / 30 s); {o.servedBefore} requests were answered before the signal, result file has {o.lines} lines (exit {o.exit})"
+    s!"fail:signal-loss:the process reported its interrupt timeout {o.since} ms after the signal (documented: 3 s / 30 s); {o.servedBefore} requests were answered before {o.what}, result file has {o.lines} lines (exit {o.exit})"
   else if o.lines < o.servedBefore then
     if o.repro ≥ 3 then
-      s!"fail:signal-loss:{o.servedBefore} requests were answered before the signal, result file has {o.lines} lines (exit {o.exit})"
+      s!"fail:signal-loss:{o.servedBefore} requests were answered before {o.what}, result file has {o.lines} lines (exit {o.exit})"
     else "skip:inconclusive"
   else if o.timedOut && o.lines < o.servedExit then
     -- the target answered every request at once, yet the process needed the whole interrupt timeout and then left
